@@ -185,7 +185,7 @@ def sub_siglen(case):
                 t = w.transaction_create([(wh.external_address(9)[0], amount)], fee=3000, min_confirms=0)
             t.sign()
             sigs = t.inputs[0].signatures
-            out.append([amount, len(sigs[0].as_der_encoded()) if sigs else 0])
+            out.append([amount, len(sigs[0].as_der_encoded()) if sigs else 0, ((sigs[0].r >> 248) & 0xff) if sigs else -1])
     finally:
         wh.close(w, d)
     return {'ret': out, 'n': len(out), 'out': 'scanned'}
@@ -348,16 +348,20 @@ def run(ctx):
                                 for wt in wts for j in range(0, W, 20)], chunk=1)
     picked = []
     for wi, wt in enumerate(wts):
-        amt = None
+        amts = {}
         for r in scans[wi * (W // 20):(wi + 1) * (W // 20)]:
-            for a, ln in r:
-                if 0 < ln <= 70 and amt is None:
-                    amt = a
-        if amt is None:
-            ctx.cap('no short signature for %s within %d amounts' % (wt, W))
-            continue
-        picked.append([wt, amt])
-        cer.append(({'wt': wt, 'm': 2, 'n': 3, 'seed': seed, 'forms': forms, 'max_len': 3, 'amount': amt}, 3))
+            for a, ln, r0 in r:
+                if 0 < ln <= 70:
+                    amts.setdefault('short', a)
+                if r0 == 0x30:
+                    amts.setdefault('r_starts_with_0x30', a)    # its 64-byte r||s form (dictionary export) looks like DER
+        for cls in ('short', 'r_starts_with_0x30'):
+            if cls not in amts:
+                ctx.cap('no %s signature for %s within %d amounts' % (cls, wt, W))
+                continue
+            picked.append([wt, cls, amts[cls]])
+            cer.append(({'wt': wt, 'm': 2, 'n': 3, 'seed': seed, 'forms': forms, 'max_len': 3 if cls == 'short' or not q else 2,
+                         'amount': amts[cls]}, 3 if cls == 'short' or not q else 2))
     ctx.note('short_signature_ceremonies', picked)
     total = ctx.bfs_multi('ceremony', cer, max_states=3000 if q else 30000)
     ctx.note('bounds', {'agreement_cases': len(cases), 'm_of_n': mns, 'ceremony_configs': len(cer),
